@@ -62,6 +62,7 @@ EXPLANATION = 'partial: all algebraic clauses proved for every optimiser answer;
 
 TOL_TIE = 1e-9          # model (exact rationals) vs implementation (floats): observed < 1e-13
 TOL_RIGID = 1e-9        # distances / relative rotations before vs after: observed < 1e-14
+TOL_SMALL = 1e-6        # boundary-scale (tiny / zero misalignment) cases: observed error see design.d/C16.md
 TOL_EXACT = 1e-5        # aligned result vs ground truth / converged reference: observed <= 3.2e-8 when converged
 FIX = 44                # model values are printed as floor(q * 2^44)
 
@@ -124,7 +125,7 @@ def _add(a, b):
     return [a[i] + b[i] for i in range(3)]
 
 
-def gen_align_case(rng, max_deg=30.0, noise=None, flip=False, wide=False, hard=False):
+def gen_align_case(rng, max_deg=30.0, noise=None, flip=False, wide=False, hard=False, small=False):
     """A solved system seen from a misaligned frame.  Ground truth lives in the desired frame: origin at 0,
     x-axis samples (a,0,0) a in [0.3,3], plane samples (b,c,0) with |c| >= 0.3 (well conditioned), base stations
     above the floor.  The inputs to align() are the images under the misalignment M (rotation < max_deg, |t| <= 3 m),
@@ -136,12 +137,32 @@ def gen_align_case(rng, max_deg=30.0, noise=None, flip=False, wide=False, hard=F
     # hard: the outer third of the property's range (all known non-convergence witnesses have > 16 degrees)
     ang = math.radians(rng.uniform(max_deg * 2.0 / 3.0 if hard else 0.0, max_deg))
     u = _unit(rng)
+    d = _unit(rng)
+    tl = rng.uniform(2.0 if hard else 0.0, 3.0)
+    scale = None
+    if small:
+        # boundary scale: rotation log-uniform in [1e-6, 30] degrees, translation log-uniform in [1e-9, 3] m, either or both
+        # exactly zero, about/along a single coordinate axis or a random direction; noise-free, checked at TOL_SMALL
+        noise = 0.0
+        mode = rng.choice(['combined', 'combined', 'rot_only', 'trans_only', 'axis', 'axis', 'zero'])
+        ang = math.radians(10.0 ** rng.uniform(-6.0, math.log10(30.0)))
+        tl = 10.0 ** rng.uniform(-9.0, math.log10(3.0))
+        if mode == 'axis':
+            u = [[1.0, 0.0, 0.0], [0.0, 1.0, 0.0], [0.0, 0.0, 1.0]][rng.randrange(3)]
+            d = [[1.0, 0.0, 0.0], [0.0, 1.0, 0.0], [0.0, 0.0, 1.0]][rng.randrange(3)]
+            which = rng.choice(['rot', 'trans', 'both'])
+            ang, tl = (ang if which != 'trans' else 0.0), (tl if which != 'rot' else 0.0)
+        elif mode == 'rot_only':
+            tl = 0.0
+        elif mode == 'trans_only':
+            ang = 0.0
+        elif mode == 'zero':
+            ang, tl = 0.0, 0.0
+        scale = {'mode': mode, 'angle_deg': math.degrees(ang), 'translation_m': tl}
     MR = _rodrigues([u[0] * ang, u[1] * ang, u[2] * ang])
     if flip:      # outside the property's range: exercises the de-flip branches (tie only)
         MR = _mm(MR, rng.choice([[[-1, 0, 0], [0, -1, 0], [0, 0, 1]], [[1, 0, 0], [0, -1, 0], [0, 0, -1]],
                                  [[-1, 0, 0], [0, 1, 0], [0, 0, -1]]]))
-    d = _unit(rng)
-    tl = rng.uniform(2.0 if hard else 0.0, 3.0)
     Mt = [d[0] * tl, d[1] * tl, d[2] * tl]
 
     def nz():
@@ -168,10 +189,10 @@ def gen_align_case(rng, max_deg=30.0, noise=None, flip=False, wide=False, hard=F
         truth.append([nid, copy.deepcopy(truth[j][1]), list(truth[j][2])])
         bs_same.append(bs_same[j])
     MRt = _tr(MR)
-    return {'kind': 'align', 'bs_same': bs_same, 'angle_deg': math.degrees(ang), 'noise': noise, 'origin': origin, 'x_axis': x_axis,
+    return {'kind': 'align', 'bs_same': bs_same, 'small': scale, 'angle_deg': math.degrees(ang), 'noise': noise, 'origin': origin, 'x_axis': x_axis,
             'xy_plane': plane, 'bs': bs, 'truth_bs': truth,
             'truth_T': [MRt, [-x for x in _mv(MRt, Mt)]], 'flip': bool(flip), 'wide': bool(wide),
-            'container': [_pick_kind(rng), _pick_kind(rng), _pick_kind(rng)], 'pose_readonly': rng.random() < 0.3}
+            'container': [_pick_kind(rng, exact=bool(small)) for _ in range(3)], 'pose_readonly': rng.random() < 0.3}
 
 
 def gen_scale_case(rng):
@@ -399,8 +420,12 @@ def _box(pts, kind, single=False):
     raise ValueError(kind)
 
 
-def _pick_kind(rng):
-    return rng.choices(KINDS, weights=KIND_WEIGHTS)[0]
+def _pick_kind(rng, exact=False):
+    """exact: only containers that keep the float64 values (boundary-scale cases are checked at 1e-6)"""
+    while True:
+        k = rng.choices(KINDS, weights=KIND_WEIGHTS)[0]
+        if not (exact and k in ('f32', 'int')):
+            return k
 
 
 def _freeze(poses):
@@ -544,11 +569,12 @@ def check_align(case):
         for p in plane:
             err = max(err, abs((TR @ p + Tt)[2]))
         detail['ground_truth_error'] = float(err)
-    if not err <= TOL_EXACT:
+    tol = TOL_SMALL if case.get('small') else TOL_EXACT
+    if not err <= tol:
         st = spy.calls[-1] if spy.calls else {}
         cls = 'aligner_max_nfev_reached' if st.get('status') == 0 else 'align_not_exact'
         detail['least_squares'] = st
-        return {'class': cls, 'case': case, 'expected': 'error <= %g against ground truth / converged optimum' % TOL_EXACT,
+        return {'class': cls, 'case': case, 'expected': 'error <= %g against ground truth / converged optimum' % tol,
                 'observed': detail,
                 'detail': 'LighthouseSystemAligner.align: misalignment %.2f deg, least_squares %s' % (case.get('angle_deg', -1), st)}
     return None
@@ -727,6 +753,7 @@ def _corpus():
 
 
 def oracle(ctx, deep=False):
+    import json
     _cf()
     cases = list(_corpus())
     n_corpus = len(cases)
@@ -737,6 +764,8 @@ def oracle(ctx, deep=False):
         cases.append(gen_align_case(ctx.rng, hard=(i % 3 == 2)))
     for _ in range(n_align // 5):
         cases.append(gen_align_case(ctx.rng, wide=True))
+    for _ in range(n_align // 4):
+        cases.append(gen_align_case(ctx.rng, small=True))
     for _ in range(ctx.scale(300, 3000)):
         cases.append(gen_scale_case(ctx.rng))
     for i in range(ctx.scale(150, 1500)):
@@ -758,15 +787,27 @@ def oracle(ctx, deep=False):
         for k in ([ks] if isinstance(ks, str) else ks):
             kinds[k] = kinds.get(k, 0) + 1
     frozen = sum(1 for c in cases if c.get('pose_readonly'))
+    # misalignment magnitudes of the boundary-scale layouts, per decade
+    def decade(x):
+        return 'zero' if x == 0 else '1e%d' % int(math.floor(math.log10(x)))
+    mag = {'angle_deg': {}, 'translation_m': {}, 'mode': {}}
+    for c in cases:
+        sm = c.get('small')
+        if sm:
+            for key, val in (('angle_deg', decade(sm['angle_deg'])), ('translation_m', decade(sm['translation_m'])), ('mode', sm['mode'])):
+                mag[key][val] = mag[key].get(val, 0) + 1
+    n_small = sum(mag['mode'].values())
     return {'evaluations': len(cases), 'failures': out, 'distinct_nontrivial': 0,
             'rule': 'align on random layouts (misalignment <= 30 deg / 3 m, 1-4 samples per axis/plane, 1-4 base stations, '
                     'a third of them with 20-30 deg and 2-3 m, %d with bounded noise, %d corpus cases first): rigid (1e-9), inputs untouched, flips resolved, equal to '
                     'ground truth / independently converged optimum (1e-5); %d layouts with any misalignment up to 180 deg '
-                    'and mirrored: rigid, inputs untouched, flips resolved; scale_fixed_point and scale_diagonals against the '
+                    'and mirrored: rigid, inputs untouched, flips resolved; %d boundary-scale layouts (rotation log-uniform 1e-6..30 deg, '
+                    'translation log-uniform 1e-9..3 m, either or both exactly zero, single coordinate axis or random direction, '
+                    'noise-free) exact to %g with misalignment magnitudes per decade %s; scale_fixed_point and scale_diagonals against the '
                     'generating factor; point arguments are handed over as %s (arrays = list of 1-D float64, view = non-contiguous '
                     'view of a larger array, int = rounded: no exactness check), %d cases with read-only arrays inside the Pose '
                     'objects, tuple/list sequences; every input is compared bit for bit (identity, dtype, strides, flags, bytes, '
-                    'base array of views) before/after; failures per class: %s' % (noisy, n_corpus, wide, kinds, frozen, seen),
+                    'base array of views) before/after; failures per class: %s' % (noisy, n_corpus, wide, n_small, TOL_SMALL, json.dumps(mag, sort_keys=True), kinds, frozen, seen),
             'samples': [{'kind': c['kind'], 'angle_deg': c.get('angle_deg'), 'n_bs': len(c['bs'])} for c in cases[n_corpus:n_corpus + 2]]}
 
 
